@@ -165,6 +165,10 @@ fn class(e: &DltParseError) -> &'static str {
         DltParseError::IncompleteParse { .. } => "Err(IncompleteParse)",
         DltParseError::ParsingHickup(_) => "Err(ParsingHickup)",
         DltParseError::Unrecoverable(_) => "Err(Unrecoverable)",
+        // a variant this harness does not know (the enum is not #[non_exhaustive]; a change that
+        // adds one must not stop the harness from building)
+        #[allow(unreachable_patterns)]
+        _ => "Err(other)",
     }
 }
 fn same(a: &ParsedMessage, b: &ParsedMessage) -> bool {
